@@ -527,6 +527,24 @@ pub fn eval_unit_name(
                         "Division by zero in the right hand side of a conversion".to_string(),
                     ));
                 }
+                if right.fract() != 0.0 {
+                    // A root: the unit names keep their place only if
+                    // every one of their powers stays whole.
+                    let mut unit = BTreeMap::new();
+                    for (k, v) in left_unit {
+                        let power = v as f64 * right;
+                        if power.fract() != 0.0 || power.abs() > i32::MAX as f64 {
+                            return Err(QueryError::generic(
+                                "Exponentiation must result in integer dimensions".to_string(),
+                            ));
+                        }
+                        if power != 0.0 {
+                            unit.insert(k, power as isize);
+                        }
+                    }
+                    let value = Numeric::Float(left_value.to_f64().powf(right));
+                    return Ok((unit, value));
+                }
                 Ok((
                     left_unit
                         .into_iter()
